@@ -725,6 +725,12 @@ func (s *session) record() {
 // invariant evaluates the C05 invariant clauses + "the state of the best block is available" on a node;
 // returns "" or what is broken. st = content of the node's stores (raw scan).
 func (s *session) invariant(n *node, st *kv) string {
+	// a query that panics on the recovered node is a broken invariant, not a harness crash
+	out, _ := vh.Guard(func() string { return s.invariant0(n, st) })
+	return out
+}
+
+func (s *session) invariant0(n *node, st *kv) string {
 	sc := s.sc
 	cs := n.cs
 	best, err := cs.GetBestBlock()
